@@ -35,6 +35,8 @@ import (
 func init() { ctrllog.SetLogger(logr.Discard()) }
 
 type RunCfg struct {
+	MaxInstanceTypes    int  // > 0: scheduling.MaxInstanceTypes for this run (the launch-request truncation; 600 in production)
+	NoReservedCapacity  bool // feature gate ReservedCapacity off
 	Workers             int  // NumConcurrentReconciles of the scheduler (1 / 4 / 16)
 	IgnorePreferences   bool // PreferencePolicyIgnore
 	BestEffortMinValues bool // MinValuesPolicyBestEffort
@@ -88,7 +90,14 @@ func Run(w *World, cfg RunCfg) (*Outcome, error) {
 		mv = options.MinValuesPolicyBestEffort
 	}
 	cpu := int64(cfg.Workers) * 1000
-	ctx := options.ToContext(context.Background(), test.Options(test.OptionsFields{PreferencePolicy: &pp, MinValuesPolicy: &mv, CPURequests: &cpu}))
+	rc := !cfg.NoReservedCapacity
+	ctx := options.ToContext(context.Background(), test.Options(test.OptionsFields{PreferencePolicy: &pp, MinValuesPolicy: &mv, CPURequests: &cpu,
+		FeatureGates: test.FeatureGates{ReservedCapacity: &rc}}))
+	if cfg.MaxInstanceTypes > 0 {
+		old := scheduling.MaxInstanceTypes
+		scheduling.MaxInstanceTypes = cfg.MaxInstanceTypes
+		defer func() { scheduling.MaxInstanceTypes = old }()
+	}
 	clk := clock.NewFakeClock(time.Unix(1_700_000_000, 0))
 	cl := kit.NewClient(interceptor.Funcs{})
 	cp := fake.NewCloudProvider()
@@ -161,6 +170,11 @@ func Run(w *World, cfg RunCfg) (*Outcome, error) {
 		c := p.DeepCopy()
 		kit.Apply(ctx, cl, c)
 		batch = append(batch, c)
+	}
+	for _, ds := range w.DaemonSets { // the daemonset controller of cluster state: remember the newest pod of each daemonset
+		if err := cluster.UpdateDaemonSet(ctx, ds); err != nil {
+			return nil, err
+		}
 	}
 	// the fake client assigns no UIDs, while Solve keys its pod cache and the queue's staleness detection by pod UID
 	originals := map[types.UID]*corev1.Pod{}
@@ -236,6 +250,7 @@ func Run(w *World, cfg RunCfg) (*Outcome, error) {
 		d.Claims = append(d.Claims, cd)
 	}
 	kindOf := map[string]string{}
+	specOf := map[string]*NodeSpec{}
 	dsBound := map[string]map[string]bool{}
 	for _, n := range w.Nodes {
 		name := ""
@@ -245,6 +260,7 @@ func Run(w *World, cfg RunCfg) (*Outcome, error) {
 			name = n.NodeClaim.Status.NodeName
 		}
 		kindOf[name] = n.Kind
+		specOf[name] = n
 		dsBound[name] = n.DSBound
 	}
 	for _, en := range results.ExistingNodes {
@@ -252,7 +268,18 @@ func Run(w *World, cfg RunCfg) (*Outcome, error) {
 		if en.Node == nil && en.NodeClaim != nil {
 			name = en.NodeClaim.Status.NodeName
 		}
-		ed := ExistingDump{Name: name, Kind: kindOf[name], Labels: sortedPairs(en.Labels()), Taints: DumpTaints(en.VerifC01Taints()),
+		// the taints the oracle judges: what the node will carry once it is up, from the generator's knowledge (a registering
+		// node's not-ready / readiness / startup taints go away, an in-flight node gets its NodeClaim's taints)
+		expTaints := en.VerifC01Taints()
+		if ns, ok := specOf[name]; ok {
+			switch {
+			case ns.Kind == "registering" || ns.Node == nil:
+				expTaints = ns.NodeClaim.Spec.Taints
+			default:
+				expTaints = ns.Node.Spec.Taints
+			}
+		}
+		ed := ExistingDump{Name: name, Kind: kindOf[name], Labels: sortedPairs(en.Labels()), Taints: DumpTaints(expTaints),
 			Alloc: Milli(en.Allocatable()), Remaining: Milli(en.VerifC01Remaining()), VLimits: map[string]int64{}, Bound: []PodDump{}, Placed: []PodDump{}, Daemons: []PodDump{}}
 		for d, l := range w.CSILimits[name] {
 			ed.VLimits[d] = int64(l)
